@@ -9,8 +9,8 @@ import (
 	"net"
 	"os"
 	"path/filepath"
-	"strings"
 	"strconv"
+	"strings"
 
 	"golang.org/x/tools/go/ssa"
 )
